@@ -20,6 +20,7 @@ def _job(args):
         ex = engine.Explorer(prog, opts.get('timeout_ms', 60000))
         if 'max_paths' in opts: ex.max_paths = opts['max_paths']
         if 'split_after' in opts: ex.split_after = opts['split_after']
+        ex.cross_budget = int(os.environ.get('VERIF_CROSSCHECK', '0') or 0)
         if 'instr_budget' in opts: ex.it.instr_budget = opts['instr_budget']
         if 'max_loop' in opts: ex.it.max_loop = opts['max_loop']
         if opts.get('panic_ok'): ex.uncaught_panic_is_violation = False
@@ -382,6 +383,7 @@ def run_property(prop, tier, jobs, meta, seed=0, procs=None):
            'unsupported': {}, 'unwind': 0, 'reach': {}, 'cuts': {}, 'functions': set(), 'samples': [], 'inconclusive': [], 'errors': [], 'outcomes': {}}
     viols = []
     wits = []
+    cross = []
     for r in results:
         if 'error' in r:
             agg['errors'].append((r['harness'], r['error'][-1500:]))
@@ -402,6 +404,8 @@ def run_property(prop, tier, jobs, meta, seed=0, procs=None):
         for v in r['violations']:
             v['harness_full'] = r['harness']
             viols.append(v)
+        for cx in r.get('cross', []):
+            cross.append(cx)
         for w in r.get('witnesses', []):
             w['harness_full'] = r['harness']
             wits.append(w)
@@ -475,6 +479,14 @@ def run_property(prop, tier, jobs, meta, seed=0, procs=None):
     known = load_known()
     rc = 0
     lines = list(wit_lines)
+    cross_sum = {'queries': len(cross), 'agree': 0, 'disagree': 0, 'unknown_or_error': 0}
+    for cx in cross:
+        others = [cx.get('z3-4.8.12'), cx.get('cvc5-1.0')]
+        if any(o == 'sat' for o in others):
+            cross_sum['disagree'] += 1
+            lines.append('INCONCLUSIVE property=%s solvers disagree on a discharged query (assert %s in %s): %s' % (prop, cx['assert'], cx['harness'], cx))
+        elif all(o == 'unsat' for o in others): cross_sum['agree'] += 1
+        else: cross_sum['unknown_or_error'] += 1
     kf_seen = set()
     new_viol = 0
     for v in confirmed:
@@ -523,6 +535,7 @@ def run_property(prop, tier, jobs, meta, seed=0, procs=None):
             'inconclusive': {'unsupported': agg['unsupported'], 'unwind': agg['unwind'], 'errors': [e[0] for e in agg['errors']]},
             'jobs': len(jobs), 'confirmed_violations': len(confirmed), 'spurious_models': len(spurious),
             'witness_paths_replayed_natively': {'agree': wit_ok, 'differ': wit_bad},
+            'cross_solver_recheck': cross_sum,
             'known_findings_seen': sorted(kf_seen),
             'exhaustive': False,
         },
